@@ -591,6 +591,12 @@ func classify(ctx *core.Ctx, pool *jsrun.Pool, st *stats) {
 			probeKind[[]rune(f.Program.S)[0]] = f.Kind
 		}
 	}
+	es5Classes := map[string]bool{}
+	for _, f := range st.failures {
+		if f.Formatter == "es5" {
+			es5Classes[f.Program.Class] = true
+		}
+	}
 	for _, f := range st.failures {
 		p := f.Program
 		feature := "pos=" + p.Class + "," + f.Kind
@@ -604,17 +610,9 @@ func classify(ctx *core.Ctx, pool *jsrun.Pool, st *stats) {
 				break
 			}
 		}
-		if f.Formatter == "es6" {
-			// formatter-specific only if the ES5 output of the same program is fine
-			es5 := false
-			for _, g := range st.failures {
-				if g.Program == p && g.Formatter == "es5" {
-					es5 = true
-				}
-			}
-			if !es5 {
-				feature += ",es6-only"
-			}
+		if f.Formatter == "es6" && !es5Classes[p.Class] {
+			// formatter-specific: no program of this position class fails under ES5
+			feature += ",es6-only"
 		}
 		ctx.Violation(core.Sig{Family: "literal", Feature: feature},
 			fmt.Sprintf("%s in %s context, string %q (%s), formatter %s: %s: %s", p.Pos, p.Wrap, trunc(p.S, 40), CharClass(p.S),
